@@ -448,6 +448,17 @@ func Run(r *fw.Run) {
 				}
 			}
 		}
+		// rune sweep over targets: every boundary rune (1- to 4-byte encodings) where a pattern has ?, *, a class or
+		// the rune itself; a pattern byte is not a target byte
+		for _, f := range append(enum.BoundaryRunes(), "é", "日", "\U0001F600", "\u212a") {
+			for _, g := range []string{"?", "?.io", "a?c", "a?", "??", "*", "a*c", "[" + f + "]", "[^a]", f, "a" + f + "c", "?/x", "a?c/d", "x,?.io", "\\" + f} {
+				for _, t := range []string{f, f + ".io", f + ".io/quote", "a" + f + "c", "a" + f, f + f, "a" + f + "c/d", f + "/x/y", "abc", "a/c"} {
+					l.States++
+					l.Transitions++
+					checkMatch(r, l, g, t)
+				}
+			}
+		}
 		r.Merge(l)
 	}
 }
